@@ -11,3 +11,12 @@
                                                                           (Properties/C06.v)
      LoopsTieDiv  div_rem_digit, last_digit_index                         (not yet referenced by a Properties file) *)
 From Bnum.Proofs Require Export LoopsTieC01 LoopsTieC02 LoopsTieC05 LoopsTieC06 LoopsTieDiv.
+(* second batch (tools/LOOPS_TRANSLATOR.md):
+     LoopsTieC01s  src/bint/overflowing.rs overflowing_add, overflowing_sub, overflowing_neg   (Properties/C01.v)
+     LoopsTieC03b  checked_next_multiple_of                                                    (Properties/C03.v)
+     LoopsTieC06b  from_digit, digits, from_digits, bit, set_bit, power_of_two, bits, checked_next_power_of_two  (C06)
+     LoopsTieC08   overflowing_pow, checked_pow, wrapping_pow                                  (Properties/C08.v)
+     LoopsTieC08b  checked_ilog2, iilog, checked_ilog10, checked_ilog                          (Properties/C08.v)
+     LoopsTieC09   cast_up, cast_down, as_buint!                                               (Properties/C09.v)
+     LoopsTieC13   from_uint!                                                                  (Properties/C13.v) *)
+From Bnum.Proofs Require Export LoopsTieC01s LoopsTieC03b LoopsTieC06b LoopsTieC08 LoopsTieC08b LoopsTieC09 LoopsTieC13.
